@@ -241,9 +241,61 @@ def rust_extras_item():
         has_dep = Or(*[Eq(x.t, DEP) for x in items])
         prop = interp.truth_term(c, interp.getattr(c, a["type_def"], "proposed"))
         dep = interp.truth_term(c, interp.getattr(c, a["type_def"], "deprecated"))
-        return And(Eq(has_gate, prop), Eq(has_dep, dep))
+        # ... and nothing else: every line is the gate or a #[deprecated...] attribute (the line shape generate_property's contract assumes)
+        only = And(*[Or(Eq(x.t, GATE), f"(str.prefixof {smt.sstr('#[deprecated')} {x.t})") for x in items])
+        return And(Eq(has_gate, prop), Eq(has_dep, dep), only)
 
     if fi is None:
         return world, None
     rep = _vc.generate_post(world, interp, fi, [("type_def", [("obj", "Annotated")])], lambda c, a: TRUE, post, f"{RUST_REL}::generate_extras")
+    return world, rep
+
+
+DOTNET_HELPERS_REL = "generator/plugins/dotnet/dotnet_helpers.py"
+
+
+def dotnet_extras_item():
+    """generate_extras (dotnet), for elements without a messageDirection (properties, structures, enumerations, aliases): every emitted line is an
+    `[Obsolete(`, `[Since(` or `[Direction(` attribute or `[Proposed]` — the line shapes the contract of dotnet generate_property assumes — and
+    `[Proposed]` is emitted iff the element is proposed.  get_deprecated / cleanup_str / to_upper_camel_case return arbitrary strings."""
+    from pyvc.symex import VList, VStr as _VStr, VTuple, VFunc, VNone, new_value, dyn_range_constraint, FunctionInfo as _FI
+
+    world = new_world()
+    interp = Interp(world)
+    world.classes["Annotated"] = ClassInfo("Annotated", {"deprecated": FieldSpec(["none", "str"]), "proposed": FieldSpec(["none", "bool"]), "since": FieldSpec(["none", "str"]), "documentation": FieldSpec(["none", "str"])}, {})
+    load_module(world, interp, os.path.join(REPO, DOTNET_HELPERS_REL), "mod", DOTNET_HELPERS_REL)
+    fi = world.functions.get(f"{DOTNET_HELPERS_REL}::generate_extras")
+    if fi is None:
+        return world, None
+    ns = world.namespaces["mod"]
+    world.declare_global("(declare-fun uf_cleanup_str (String) String)")
+
+    def ext(name, params, spec):
+        q = f"assumed::{name}"
+        world.functions[q] = _FI(q, None, Contract(name, params, lambda c, a: TRUE, spec, "returns an arbitrary value of its result type"), "", "mod")
+        ns[name] = VFunc(q)
+
+    def s_deprecated(c, a):
+        v = new_value(c, "deprecated_in_doc", ["none", "str"])
+        c.assume(dyn_range_constraint(c, v))
+        return SReturn(v)
+
+    ext("get_deprecated", [("text", ["none", "str"])], s_deprecated)
+    ext("cleanup_str", [("text", ["str"])], lambda c, a: SReturn(VStr(f"(uf_cleanup_str {force(c, a['text']).t})")))
+    PROPOSED = smt.sstr("[Proposed]")
+
+    def post(c, a, impl):
+        if impl[0] != "return":
+            return FALSE
+        r = force(c, impl[1])
+        if not isinstance(r, (VList, VTuple)):
+            return FALSE
+        items = [force(c, x) for x in r.items]
+        if not all(isinstance(x, _VStr) for x in items):
+            return FALSE
+        shapes = And(*[Or(Eq(x.t, PROPOSED), *[f"(str.prefixof {smt.sstr(p)} {x.t})" for p in ("[Obsolete(", "[Since(", "[Direction(")]) for x in items])
+        prop = interp.truth_term(c, interp.getattr(c, a["type_def"], "proposed"))
+        return And(shapes, Eq(Or(*[Eq(x.t, PROPOSED) for x in items]), prop))
+
+    rep = _vc.generate_post(world, interp, fi, [("type_def", [("obj", "Annotated")])], lambda c, a: TRUE, post, f"{DOTNET_HELPERS_REL}::generate_extras")
     return world, rep
